@@ -312,6 +312,7 @@ def run(ctx):
         ctx.count('has-raise' if any(o[0] == 'c' and o[3] for o in ops) else 'no-raise')
         ctx.count('has-nonpositive-window' if any(o[0] == 'q' and o[2] is not None and o[2] <= 0 for o in ops) else 'windows>=1')
     sync_stream(ctx)
+    thread_stream(ctx)
     for (case, impl_strs), mo in zip(pend, ctx.model.ask(lines)):
         if mo is None:
             continue
@@ -390,6 +391,51 @@ def sync_stream(ctx):
         ctx.evaluations += 1
         ctx.case(('sync', world, ncalls, tuple(raises)), nontrivial=world > 1)
         ctx.count('sync-calls')
+
+
+def thread_stream(ctx):
+    """calls of one traced name completing on several threads (a data-loader or logging thread next to the training loop),
+    one at a time: the window is the last max_history COMPLETED calls in completion order, whichever thread made them"""
+    import threading
+    import kfac.tracing as tr
+    rng = ctx.rng
+    for trial in range(ctx.budget(6, 40)):
+        tr.clear_trace()
+        clock = Clock()
+        old_time = tr.time
+        tr.time = clock
+        try:
+            def work():
+                return None
+            work.__name__ = 'work'
+            f = tr.trace()(work)
+            durs = [Fraction(2 ** rng.randrange(0, 6)) for _ in range(rng.randrange(3, 8))]
+            who = [rng.randrange(2) for _ in durs]
+
+            def call(dt):
+                clock.t = Fraction(0)
+                clock.script = [Fraction(1, 8), dt]
+                f()
+            for dt, w_ in zip(durs, who):
+                if w_ == 0:
+                    call(dt)
+                else:
+                    th = threading.Thread(target=call, args=(dt,))
+                    th.start()
+                    th.join()
+            case = {'stream': 'threads', 'durations': [rat(d) for d in durs], 'thread': who}
+            for mh in (1, 2, 3, None):
+                got = tr.get_trace(average=False, max_history=mh)
+                want = sum(durs[-mh:] if mh else durs)
+                if list(got) != ['work'] or Fraction(got['work']) != want:
+                    ctx.fail(f'get_trace(max_history={mh}) = {got} after calls completing on two threads; the last {mh or len(durs)} completed '
+                             f'calls sum to {rat(want)}', case, 'thread-window')
+                    break
+            ctx.evaluations += 1
+            ctx.count('thread-histories')
+        finally:
+            tr.time = old_time
+            tr.clear_trace()
 
 
 def search(ctx):
